@@ -406,6 +406,21 @@ def main():
 
 
 def replay(p, path):
+    if 'special_session' in p:
+        sc = Scratch()
+        try:
+            probs, n = special_sessions(sc, p['special_session'].split(' decorator-object')[0] if 'decorator-object' not in p['special_session'] else 'decorator-object')
+        finally:
+            sc.close()
+        print(json.dumps(probs[:4], indent=1, default=repr))
+        if probs:
+            print('VIOLATION property=C20 replay=%s' % path)
+            return 1
+        print('replay: the recorded case no longer fails')
+        return 0
+    if 'cfg' not in p or 'ops' not in p:
+        print('replay: %s records a broken proof/correspondence (%s), nothing to execute' % (path, p.get('broken')))
+        return 1
     sc = Scratch()
     try:
         res = run_case(p['cfg'], [tuple(o) for o in p['ops']], p['cut'], [tuple(o) for o in p.get('tail', [])], sc)
